@@ -1101,6 +1101,13 @@ def ref_getitem(ctx: Ctx) -> RuleResult:
         deep = len(asg) == 1 and isinstance(asg[0].value, ast.Call) and (dotted(asg[0].value.func) or "").split(".")[-1] == "deepcopy" \
             and dotted(asg[0].value.args[0]) == "self"
         ok = tgt != "self" and deep and dotted(rv) == tgt and dotted(m.args[0]) == kp
+        # ONE step of the key path per indexing, whatever the key is: a tuple key (a dict keyed by pairs, a sparse grid) is one key
+        if m.func.attr != "append" or dotted(m.args[0]) != kp:
+            r.ob(False, {"key recorded by": norm_src(m)[:80]})
+            r.violate(f"UsageExecNode.__getitem__: the key is not recorded as one step of the key path ({norm_src(m)[:60]})", gi.loc(m),
+                      "table[0, 1] must be resolved as table[(0, 1)] at node entry; spreading a tuple key over several steps resolves it as "
+                      "table[0][1] - another element, or a KeyError", norm_src(m))
+            return r
         r.ob(ok, {"new reference": norm_src(asg[0]) if asg else None, "key appended to": tgt, "returned": norm_src(rv)})
         if tgt == "self":
             r.violate("UsageExecNode.__getitem__: appends the key to the receiver itself", gi.loc(m),
